@@ -7,7 +7,9 @@
 (* the positions and sizes reported at write time, DataFile.Size(), the    *)
 (* physical size, what the sequential reader delivered from the start of   *)
 (* the appended part, whether random reads returned the written bytes, and *)
-(* whether the other I/O back-end produced byte-identical files.           *)
+(* whether the other I/O back-end produced byte-identical files.  Offsets  *)
+(* and block numbers are logged relative to a (possibly empty) hole the    *)
+(* file begins with: the arithmetic is periodic in the block size.         *)
 (* Every number is recomputed here with the real constants.                *)
 (***************************************************************************)
 EXTENDS FramingOps, Json
@@ -40,7 +42,9 @@ CaseOK(e) ==
               \/ (e.recs[i].blk = L.blk /\ e.recs[i].off = L.off /\ e.recs[i].size = L.size))
       /\ Must("size", e.logical = final /\ e.physical = final)
       \* the sequential reader, started where the appended part begins, delivers exactly the appended records
-      /\ Must("seq", /\ e.seqerr = "ok" /\ Len(e.seq) = Len(e.recs)
+      \* (noseq: the case lies behind a hole of 2^17 blocks - offsets around 4 GiB - where only positional reads are possible)
+      /\ Must("seq", e.noseq \/
+                     /\ e.seqerr = "ok" /\ Len(e.seq) = Len(e.recs)
                      /\ \A i \in 1..Len(e.recs) :
                           LET L == Layout(StartOf(e.recs, ends, e.abs, i), PayloadLen(e.recs[i])) IN
                           /\ e.seq[i].same
